@@ -54,20 +54,21 @@ theorem stops_after_last (srv : Server) (fuel i : Nat) (s : Iter)
 
 /-- Dialogs: for every dialog list in server order (strictly descending in `(date, top message id,
 peer)`, no all-zero key), every page size ≥ 1 and every choice of `messages.dialogs` /
-`messages.dialogsSlice` per request, iterating yields exactly the list, in order, and stops. -/
+`messages.dialogsSlice` per request, and every server-side page cap ≥ 1 (pages may be shorter than
+requested although more dialogs remain), iterating yields exactly the list, in order, and stops. -/
 theorem iterate_dialogs_exact (ds : List Dlg) (hdesc : ds.Pairwise (fun a b => b.lt a = true))
     (hnz : ∀ d ∈ ds, d ≠ Dlg.zero) (limit : Nat) (hlimit : 1 ≤ limit) (ks : List Kind)
-    (fuel : Nat) (hfuel : ds.length < fuel) :
-    (drun ds fuel ks (DIter.init limit)).yields = ds ∧
-    (drun ds fuel ks (DIter.init limit)).done = true := by
+    (cap : Nat) (hcap : 1 ≤ cap) (fuel : Nat) (hfuel : ds.length < fuel) :
+    (drun ds fuel ks cap (DIter.init limit)).yields = ds ∧
+    (drun ds fuel ks cap (DIter.init limit)).done = true := by
   have hpend : dpending ds (DIter.init limit) = ds := by simp [dpending, DIter.init, belowD]
-  have := drunS_exact ds hdesc hnz ks fuel 0 (DIter.init limit) (by simp only [DIter.init]; omega)
+  have := drunS_exact ds hdesc hnz ks cap (by omega) fuel 0 (DIter.init limit) (by simp only [DIter.init]; omega)
     (by rw [hpend]; exact hfuel)
   rw [hpend] at this
   exact this
 
 /-- Non-vacuity (dialogs): three dialogs, two of them with the same date, page size 2. -/
-example : (drun [⟨9, 5, 2⟩, ⟨9, 5, 1⟩, ⟨3, 8, 7⟩] 4 [.slice, .full] (DIter.init 2)).yields =
+example : (drun [⟨9, 5, 2⟩, ⟨9, 5, 1⟩, ⟨3, 8, 7⟩] 4 [.slice, .full] 1 (DIter.init 2)).yields =
     [⟨9, 5, 2⟩, ⟨9, 5, 1⟩, ⟨3, 8, 7⟩] := by decide
 
 /-- Non-vacuity: a 5-item history with page size 2 (three pages, the last one short) and one with an
